@@ -60,4 +60,28 @@ PROPS = {
         test_clauses=["100 ns -> frame conversion in f64", "exact duration vectors"],
         assumptions=["times finite, known times >= 0 (the property's quantifier)"],
     ),
+    "C19": dict(
+        rule="(a) voice tuples: 0..3 copies of the bundled voice or of a generated voice (2/3 streams, stage 0..2, 1..5 states), one copy mutated in "
+             "exactly one metadata field (sampling rate, frame period, states, stream count, vector length, window count, MSD flag, GV flag, option, "
+             "stream list, stream type) or in none; class = (count, mutated field). (b) histories of 1..6 weight updates on engines of 1..4 compatible "
+             "generated voices: simplex, vertex, off-simplex summing to 1, wrong length, sum off by 1e-6..2, sum off by 1 ulp, NaN, wrong length AND sum; "
+             "after each update all getters are dumped; after the history the waveform is compared bitwise with an engine that only ever saw the accepted "
+             "updates; class = (setter, weight kind, result). non-trivial = at least one accepted and one rejected update (histories) / two or more voices (tuples)",
+        theorem_clauses=["VoiceSet::new ok iff non-empty and all metadata equal; error kinds", "setter accepted iff |sum-1|<=eps and count = nvoices",
+                         "sum checked before length", "accepted update stores exactly the weights, other vectors untouched",
+                         "rejected update is a no-op in any history", "lengths invariant through any history", "default = average, itself valid"],
+        test_clauses=["f64 summation and f64::EPSILON comparison", "synthesis after a rejected update uses the previous weights (bitwise waveform)"],
+        assumptions=["metadata compared as canonical text of the fields VoiceSet::new compares"],
+    ),
+    "C10": dict(
+        rule="voice sets of 1..4 compatible generated voices (same metadata seed, different trees and PDFs), identical-voice sets, and the bundled voice "
+             "blended with itself; an independent valid weight vector per quantity (duration, parameter i, GV i) drawn from simplex/vertex/off-simplex; "
+             "1..3 corpus labels; one case per (quantity, label, state): per-voice Gaussians from each voice's own get_parameter vs Models::duration / "
+             "model_stream(i).stream / .gv. class = (quantity, #voices, vertex/identical/blend, msd/plain); non-trivial = >=2 voices, non-vertex weight, "
+             "pairwise different selected Gaussians (or the identical-voice law)",
+        theorem_clauses=["means and variances are the weighted sums", "voicing weight is the weighted sum", "vertex weights reproduce the first voice exactly",
+                         "identical voices with weights summing to 1 reproduce the voice", "each quantity reads only its own weight vector"],
+        test_clauses=["rounding of the f64 weighted sum (1e-12 relative)", "which weight vector reaches which quantity in Models (wiring)"],
+        assumptions=[],
+    ),
 }
